@@ -537,6 +537,52 @@ def strBufRun (c : StrBufCfg) (s : StrBufState) : List Nat → Outcome StrBufSta
 
 def strBufInit (c : StrBufCfg) : StrBufState := ⟨0, c.room, true⟩
 
+/-! ## nesting depth of expressions, statements, types, supertype expressions -/
+
+mutual
+/-- shape of anything the resolver recurses over: a node and its children -/
+inductive Tree where
+  | node (kids : Forest)
+inductive Forest where
+  | nil
+  | cons (t : Tree) (rest : Forest)
+end
+
+mutual
+/-- recursion depth of every pass that walks the tree (resolver, pretty printer, generators) -/
+def Tree.height : Tree → Nat
+  | .node k => 1 + k.height
+def Forest.height : Forest → Nat
+  | .nil => 0
+  | .cons t r => max t.height r.height
+end
+
+mutual
+/-- the resolver with its depth counter `d` (`X_resolve_depth`): `false` = refused with the fatal diagnostic.
+`limit = none`: no counter in the source. -/
+def Tree.accepted (limit : Option Nat) (d : Nat) : Tree → Bool
+  | .node k =>
+    match limit with
+    | some l => if l ≤ d then false else k.accepted limit (d + 1)
+    | none => k.accepted limit (d + 1)
+def Forest.accepted (limit : Option Nat) (d : Nat) : Forest → Bool
+  | .nil => true
+  | .cons t r => t.accepted limit d && r.accepted limit d
+end
+
+/-! ## exp2python `python_indent` -/
+
+inductive IndentCfg where
+  | loop                -- `for( i < indent_level ) fprintf( file, "\t" )`
+  | array (tabs : Nat)  -- `fwrite( tabs, 1, indent_level, file )` from `static const char tabs[] = "\t…"` (tabs + 1 bytes)
+  deriving Repr, DecidableEq
+
+/-- bytes read from the indentation source for one line at `level`; `overflow` = read past the array -/
+def indentOut (c : IndentCfg) (level : Nat) : Outcome Nat :=
+  match c with
+  | .loop => .ok level
+  | .array tabs => if level ≤ tabs then .ok level else .overflow (tabs + 1)
+
 /-! ## exit status -/
 
 inductive Tool where
